@@ -2,6 +2,9 @@
    size selection of Transport._activate_inbound / _activate_outbound (letters, size sources
    and cipher / MAC tables come from Gen/C04_gen.v, regenerated from the source every run).
    Definitions only; proofs are in Proofs/C04_proofs.v. *)
+From Coq Require Ascii String.
+Import String.StringSyntax.
+Delimit Scope string_scope with string.
 From PV Require Import Bytes C39 C04_gen.
 Open Scope Z_scope.
 
@@ -136,6 +139,43 @@ Definition kex_hash_len (declared : option Z) : Z :=
 
 Definition kex_hashes_positive : bool :=
   forallb (fun r => (1 <=? kex_hash_len (snd r)) && (kex_hash_len (snd r) <=? 64)) gen_kex_hashes.
+
+(* ---- which hash each kex METHOD is specified to use (hand-written from the RFCs, by method name:
+   RFC 4253 8.1/8.2 and RFC 4419 sha1; RFC 4419 / RFC 8268 sha256, sha512; RFC 5656 6.2.1 nistp256 sha256,
+   nistp384 sha384, nistp521 sha512; RFC 8731 curve25519 sha256; RFC 4462 gss-*-sha1 sha1).
+   A kex added to Transport._kex_info without an entry here fails C04_kex_hash_spec. *)
+Definition bytes_of (s : String.string) : list Z :=
+  map (fun a => Z.of_N (Ascii.N_of_ascii a)) (String.list_ascii_of_string s).
+
+Definition spec_kex_hashes : list (list Z * Z) := [
+  (bytes_of "diffie-hellman-group1-sha1"%string, 20);
+  (bytes_of "diffie-hellman-group14-sha1"%string, 20);
+  (bytes_of "diffie-hellman-group-exchange-sha1"%string, 20);
+  (bytes_of "diffie-hellman-group-exchange-sha256"%string, 32);
+  (bytes_of "diffie-hellman-group14-sha256"%string, 32);
+  (bytes_of "diffie-hellman-group16-sha512"%string, 64);
+  (bytes_of "gss-group1-sha1-toWM5Slw5Ew8Mqkay+al2g=="%string, 20);
+  (bytes_of "gss-group14-sha1-toWM5Slw5Ew8Mqkay+al2g=="%string, 20);
+  (bytes_of "gss-gex-sha1-toWM5Slw5Ew8Mqkay+al2g=="%string, 20);
+  (bytes_of "ecdh-sha2-nistp256"%string, 32);
+  (bytes_of "ecdh-sha2-nistp384"%string, 48);
+  (bytes_of "ecdh-sha2-nistp521"%string, 64);
+  (bytes_of "curve25519-sha256@libssh.org"%string, 32);
+  (bytes_of "curve25519-sha256"%string, 32)
+].
+
+Fixpoint spec_kex_hash_len_in (tbl : list (list Z * Z)) (name : list Z) : option Z :=
+  match tbl with
+  | [] => None
+  | (n, h) :: r => if zlist_eqb n name then Some h else spec_kex_hash_len_in r name
+  end.
+Definition spec_kex_hash_len := spec_kex_hash_len_in spec_kex_hashes.
+
+Definition kex_hashes_match_spec : bool :=
+  forallb (fun r => match spec_kex_hash_len (fst r) with
+                    | Some h => h =? kex_hash_len (snd r)
+                    | None => false
+                    end) gen_kex_hashes.
 
 (* ---- toy hash for the correspondence run (the same function is defined in harness/c04.py) ---
    32-bit polynomial rolling state, expanded to hl output bytes *)
